@@ -178,8 +178,44 @@ func (s *Ser) codeSpan(c string) string {
 	return strings.Repeat("`", f) + pad + c + pad + strings.Repeat("`", f)
 }
 
+// guardTitleLines escapes, on every line of a title after the first, a first
+// character (or an ordered list delimiter after leading digits) that would
+// start a block if the line began with it bare. esc escapes one line.
+func guardTitleLines(t string, esc func(string) string) string {
+	lines := strings.Split(t, "\n")
+	for i, l := range lines {
+		if i == 0 || l == "" {
+			lines[i] = esc(l)
+			continue
+		}
+		j := 0
+		for j < len(l) && l[j] >= '0' && l[j] <= '9' {
+			j++
+		}
+		switch {
+		case j > 0 && j < len(l) && (l[j] == '.' || l[j] == ')'):
+			lines[i] = l[:j] + "\\" + l[j:j+1] + esc(l[j+1:])
+		case strings.IndexByte(puncts, l[0]) >= 0 && l[0] != '\\' && l[0] != '&':
+			lines[i] = "\\" + l[:1] + esc(l[1:])
+		default:
+			lines[i] = esc(l)
+		}
+	}
+	return strings.Join(lines, "\n")
+}
+
 func (s *Ser) titleStr(t string) string {
 	amp := func(x string) string { return strings.ReplaceAll(x, "&", "&amp;") }
+	if strings.Contains(t, "\n") {
+		switch s.pick("titledelim", 3) {
+		case 0:
+			return `"` + guardTitleLines(t, func(x string) string { return amp(strings.NewReplacer(`\`, `\\`, `"`, `\"`).Replace(x)) }) + `"`
+		case 1:
+			return `'` + guardTitleLines(t, func(x string) string { return amp(strings.NewReplacer(`\`, `\\`, `'`, `\'`).Replace(x)) }) + `'`
+		default:
+			return `(` + guardTitleLines(t, func(x string) string { return amp(strings.NewReplacer(`\`, `\\`, `(`, `\(`, `)`, `\)`).Replace(x)) }) + `)`
+		}
+	}
 	switch s.pick("titledelim", 3) {
 	case 0:
 		return `"` + amp(strings.NewReplacer(`\`, `\\`, `"`, `\"`).Replace(t)) + `"`
@@ -546,7 +582,9 @@ func (s *Ser) block(b *Block, c sctx) []line {
 		if b.Title != nil {
 			t := *b.Title
 			if s.St.Canonical {
-				l += ` "` + strings.ReplaceAll(strings.NewReplacer(`\`, `\\`, `"`, `\"`).Replace(t), "&", "&amp;") + `"`
+				l += ` "` + guardTitleLines(t, func(x string) string {
+					return strings.ReplaceAll(strings.NewReplacer(`\`, `\\`, `"`, `\"`).Replace(x), "&", "&amp;")
+				}) + `"`
 			} else {
 				l += []string{" ", "  ", "\n", "\n  "}[s.pick("deftsep", 4)] + s.titleStr(t)
 			}
